@@ -1219,7 +1219,18 @@ func (c *Client) connOpen(u *base.URL) error {
 					tlsConfig.ServerName = host
 				}
 
-				nconn = tls.Client(nconn, tlsConfig)
+				tconn := tls.Client(nconn, tlsConfig)
+
+				// perform the handshake within the dial timeout.
+				// otherwise it takes place during the first read or write,
+				// and reads have no deadline.
+				err = tconn.HandshakeContext(dialCtx)
+				if err != nil {
+					nconn.Close()
+					return err
+				}
+
+				nconn = tconn
 			}
 		}
 	}
